@@ -37,19 +37,17 @@ inline void probe_error(const char* id, const std::string& msg) {
 #endif
   ProbeRegistry& r = probes();
   r.total_errors++;
-  if (r.errors.size() < 8) r.errors.emplace_back(id, msg);
+  if (r.errors.size() < 64) r.errors.emplace_back(id, *scopes().tag ? msg + " [during " + scopes().tag + "]" : msg);
 }
 inline size_t probe_live() { return probes().live.size(); }
-inline bool take_probe_errors(std::string& id, std::string& msg) {
+inline std::vector<std::pair<std::string, std::string>> take_probe_errors(uint64_t* total = nullptr) {
   InternalScope in;
   ProbeRegistry& r = probes();
-  if (r.total_errors == 0) return false;
-  id = r.errors.empty() ? "probe-error" : r.errors[0].first;
-  msg = r.errors.empty() ? "probe error" : r.errors[0].second;
-  if (r.total_errors > 1) msg += "  (+" + std::to_string(r.total_errors - 1) + " more item errors in this step)";
-  r.errors.clear();
+  std::vector<std::pair<std::string, std::string>> out;
+  out.swap(r.errors);
+  if (total) *total = r.total_errors;
   r.total_errors = 0;
-  return true;
+  return out;
 }
 inline void reset_probe_tracking() {
   InternalScope in;
